@@ -307,6 +307,9 @@ class PathEnumerator:
             return
         infinite = isinstance(st, ast.While) and isinstance(st.test, ast.Constant) and bool(st.test.value)
         body_names = set().union(*[assigned_names(s) for s in ast.walk(st) if isinstance(s, ast.stmt)])
+        # exact-k unrolling: facts established inside the k iterations stay valid; only the loop target
+        # is re-bound at each iteration start
+        body_names_excl_target = set()
         for k in self.loop_iters:
             if infinite and k == 0:
                 continue
@@ -317,7 +320,7 @@ class PathEnumerator:
             for it in range(k):
                 nxt = []
                 for q in starts:
-                    self._invalidate(q, assigned_names(st) | (body_names if it > 0 else set()))
+                    self._invalidate(q, assigned_names(st) - body_names_excl_target)
                     q.items.append(Decision(f"loop@{st.lineno} iter {it + 1}", True, st.lineno))
                     for r in self._block(st.body, q):
                         self._tick()
@@ -336,10 +339,8 @@ class PathEnumerator:
             if not infinite:
                 for q in starts:
                     q.items.append(Decision(f"loop@{st.lineno} exhausted after {k}", True, st.lineno))
-                    self._invalidate(q, body_names if k else set())
                     yield from self._block(st.orelse, q)
             for r in finished:
-                self._invalidate(r, body_names)
                 yield r
 
     def _try(self, st: ast.Try, p: Path) -> Iterator[Path]:
